@@ -37,7 +37,7 @@ class Cfg:
     """Swarm configuration of one run (drawn first from the scenario stream)"""
 
     __slots__ = ("src_flavours", "fn_flavours", "max_susp", "max_len", "keyspace",
-                 "aclose_susp", "logging_only", "async_only", "odd_items", "odd_sources")
+                 "aclose_susp", "logging_only", "async_only", "odd_items", "odd_sources", "huge")
 
     def __init__(self):
         self.src_flavours = ALL_FLAVOURS
@@ -49,13 +49,14 @@ class Cfg:
         self.logging_only = False
         self.async_only = False
         self.odd_items = False
+        self.huge = False  # inputs and numeric parameters beyond 256 (where small-int identity stops working)
         self.odd_sources = True  # aclose returning a value / a non-coroutine awaitable, one iterator passed twice
 
     def describe(self):
         return {k: getattr(self, k) for k in self.__slots__}
 
 
-def draw_cfg(ch, logging_only=False, async_only=False, all_suspend=False, odd_items=True):
+def draw_cfg(ch, logging_only=False, async_only=False, all_suspend=False, odd_items=True, huge=False):
     cfg = Cfg()
     cfg.odd_items = odd_items
     palette = ch.draw(4)
@@ -87,6 +88,10 @@ def draw_cfg(ch, logging_only=False, async_only=False, all_suspend=False, odd_it
     if ch.chance(1, 16):
         # long inputs once in a while: whatever only starts to matter beyond a size threshold
         cfg.max_len = (24, 40, 70)[ch.draw(3)]
+    if huge and ch.chance(1, 40):
+        # once in a while everything is big: more than 256 items, numeric parameters beyond 256
+        cfg.max_len = 330
+        cfg.huge = True
     cfg.aclose_susp = ch.chance(1, 4)
     return cfg
 
@@ -118,9 +123,17 @@ class Gen:
             return ABSENT
         return None if r == 4 else self.item()
 
+    def big(self, hi):
+        """A number below ``hi``; in huge mode mostly close to ``hi``"""
+        if self.cfg.huge and hi > 60 and self.ch.chance(2, 3):
+            return hi - 1 - self.ch.draw(60)
+        return self.ch.draw(hi)
+
     def items(self, n=None, falsy=False):
         if n is None:
             n = self.ch.draw(self.cfg.max_len + 1)
+            if self.cfg.huge:
+                n = 258 + n % 72
         out = []
         for _ in range(n):
             truth = True
@@ -182,7 +195,8 @@ class Gen:
             # a slow producer: virtual seconds pass inside some of its pulls
             slow = tuple((0.0, 0.05, 0.3, 2.0)[self.ch.draw(4)] for _ in range(3))
         equal = self.equal_sources and fl in ("aiter_cls", "aiter_full", "aiter_noclose")
-        return SrcPlan(name, items, fl, susp, ac, aclose_mode=mode, falsy=falsy, resilient=resilient, equal=equal, slow=slow)
+        return SrcPlan(name, items, fl, susp, ac, aclose_mode=mode, falsy=falsy, resilient=resilient, equal=equal, slow=slow,
+                       dual=fl == "aiter_cls" and bool(self.cfg.odd_sources) and self.ch.chance(1, 8))
 
     def fn(self, kind, param=0):
         fls = self.cfg.fn_flavours
@@ -432,6 +446,8 @@ def _ref_batched(it, n, strict):
 class _Batched(ToolBase):
     def gen(self, g):
         n = g.ch.between(1, 4) if not g.ch.chance(1, 10) else 0
+        if g.cfg.huge and g.ch.chance(1, 2):
+            n = 257 + g.ch.draw(40)
         strict = ABSENT if not g.ch.chance(1, 2) else g.ch.chance(1, 2)
         return Spec("batched", [g.src(g.sprinkle(g.items()))], [], {"n": n, "strict": strict})
 
@@ -536,7 +552,7 @@ class _ISlice(ToolBase):
         hi = len(items) + 3
 
         def val(allow_none=True):
-            v = g.ch.draw(hi + (1 if allow_none else 0))
+            v = g.big(hi + (1 if allow_none else 0))
             return None if v == hi else v
 
         form = g.ch.draw(3)
@@ -956,7 +972,7 @@ class _NBest(AggBase):
 
     def gen(self, g):
         items = _odd_items(g, g.items())
-        n = g.ch.draw(len(items) + 3)
+        n = g.big(len(items) + 3)
         return Spec(self.which, [g.src(items)], [g.keyfn()], {"n": n})
 
     def a(self, L, spec, S, F):
